@@ -64,7 +64,8 @@ class Result(object):
         lst = self.violations.setdefault(key, [])
         if len(lst) < MAX_VIOL_PER_KEY:
             lst.append({"key": key, "case": case, "msg": msg,
-                        "observed": observed, "expected": expected})
+                        "observed": observed, "expected": expected,
+                        "unit": getattr(self, "current_unit", None)})
 
     def merge(self, o):
         self.evaluations += o.evaluations
@@ -116,6 +117,7 @@ def _init_worker(modname):
 
 def _run_unit(unit):
     r = Result()
+    r.current_unit = unit
     try:
         _MOD.run_unit(unit, r)
     except BaseException:
@@ -131,8 +133,11 @@ def run_pool(mod, units, jobs):
             total.merge(_run_unit(u))
         return total
     ctx = mp.get_context("fork")
+    # every unit runs in a freshly forked worker (maxtasksperchild=1): state leaking between calls
+    # (module globals, C statics, caches) then depends only on the unit's own deterministic history,
+    # so a history-dependent violation can be reproduced by re-running its unit in a fresh process
     with ctx.Pool(min(jobs, len(units)), initializer=_init_worker,
-                  initargs=(mod.__name__,)) as pool:
+                  initargs=(mod.__name__,), maxtasksperchild=1) as pool:
         for r in pool.imap_unordered(_run_unit, units, chunksize=1):
             total.merge(r)
     return total
@@ -183,6 +188,7 @@ def _supervised_child(modname, unit, skip, timeout, wfd, outpath, errpath):
     _init_worker(modname)
     signal.signal(signal.SIGALRM, signal.SIG_DFL)     # kills even inside C
     r = Result()
+    r.current_unit = unit
     r.sup = Supervisor(wfd, skip, timeout)
     try:
         _MOD.run_unit(unit, r)
